@@ -80,10 +80,9 @@ theorem scal_loadAcct {d m sc a m1} (h : loadAcct d m sc a = .ok m1) : Scal m1 =
     · cases h
     · split at h
       · cases h
-      · dsimp only at h
-        split at h
+      · split at h
         · cases h
-        · cases h; simp [scal_updScope, scal_keyToManaged]
+        · cases h; simp [loadAcctRow, scal_updScope, scal_keyToManaged]
 
 theorem scal_chainRow {d m sc a b i r} (h : chainRowToManaged d m sc a b i = .ok r) : Scal r.1 = Scal m := by
   unfold chainRowToManaged at h
